@@ -342,7 +342,10 @@ class TaintInterp:
         # d[k] = v : the association is tainted by the order-ish taint of k and by v; a node id used as key is fine
         kt = without(tt(key), LABEL)
         if base.kind == "map":
-            nb = V("map", base.t, join(base.elem, add(v, kt | pc)), base.ot | pc, base.oid, x=join(base.x, key) if isinstance(base.x, V) else key)
+            # keyed by a node id (unique per atom): which value ends up under the key does not depend on the order
+            # in which the atoms were visited; only the dictionary's own (insertion) order does
+            vpc = E if key.kind == "node" else pc
+            nb = V("map", base.t, join(base.elem, add(v, kt | vpc)), base.ot | pc, base.oid, x=join(base.x, key) if isinstance(base.x, V) else key)
             self.rebind(base_expr, nb, env, fi)
         elif base.kind == "nodeattrs":            # m.nodes[a][KEY] = v
             g, keyname = base.x
@@ -488,6 +491,12 @@ class TaintInterp:
 
     def e_BinOp(self, e, env, pc, fi):
         a, b = self.ev(e.left, env, pc, fi), self.ev(e.right, env, pc, fi)
+        if isinstance(e.op, (ast.BitAnd, ast.BitOr, ast.BitXor)) or (isinstance(e.op, ast.Sub) and a.kind in ("seq", "map") and b.kind in ("seq", "map")):
+            if a.kind in ("seq", "map") or b.kind in ("seq", "map"):
+                # set algebra on key views / sets: the result is a set
+                def el(v):
+                    return (v.x if v.kind == "map" and isinstance(v.x, V) else v.elem) if v.kind in ("seq", "map") else sc(tt(v))
+                return V("seq", E, join(el(a), el(b)), self.src(HASH, fi, e, "set operation on key views (result is a set: iteration order depends on hashing)"), ("set", id(e)))
         if isinstance(e.op, ast.Add) and a.kind == "seq" and b.kind == "seq":
             return seq(join(a.elem, b.elem), a.ot | b.ot, ("cat", a.oid, b.oid))
         if isinstance(e.op, ast.Add) and a.kind == "tuple" and b.kind == "tuple":
